@@ -151,6 +151,10 @@ func runC02(w *W) {
 		scale = 40
 	}
 	w.eachValidDoc(scale, func(g string, doc []byte) { w.c02Judge(st, g, doc) })
+	// tokens slid across the end of the block in which an index buffer fills (invalid ones are skipped by the judge)
+	w.genFillBlock(fillStep(w), func(g string, doc []byte) { w.c02Judge(st, g, doc) })
+	w.genSpaceInDense([]int{1500, 9000}, func(g string, doc []byte) { w.c02Judge(st, g, doc) })
+	w.genAlignedPartial(10, 180, 3, func(g string, doc []byte) { w.c02Judge(st, g, doc) })
 }
 
 func replayC02(w *W, cs *ev.Case) {
